@@ -59,7 +59,9 @@ func (h *hist) valid(n int) string {
 		name string
 		port int
 	}{{"a", h.p1}, {"b", h.p1}, {"c", h.p2}} {
-		fmt.Fprintf(&b, "http://%s.test:%d {\n root %s\n header / X-Verif-Config %d\n header / X-Verif-Site %s\n}\n", s.name, s.port, h.cfgDir(n), n, s.name)
+		// (an access log per site: a request that is still in flight when its instance is
+		// replaced comes to write its line after that instance's log has been closed)
+		fmt.Fprintf(&b, "http://%s.test:%d {\n root %s\n header / X-Verif-Config %d\n header / X-Verif-Site %s\n log / %s\n}\n", s.name, s.port, h.cfgDir(n), n, s.name, filepath.Join(h.dir, "access-"+s.name+".log"))
 	}
 	return b.String()
 }
@@ -154,6 +156,7 @@ func run(c *lib.Ctx) {
 		}
 	}
 	straceHistory(c)
+	bindHistory(c)
 	c.Count("restart_hook_hits", atomic.LoadInt64(&hookHits))
 	c.Floor("requests_overlapping_a_reload", 50)
 	c.Floor("windows_with_both_generations_seen", 1)
